@@ -580,6 +580,90 @@ func RunC09(c *Ctx) error {
 			samples = append(samples, map[string]interface{}{"grammar": j.cs.gc.ID, "flags": j.cs.flags, "env": j.cs.env, "faults": j.plan.Faults, "exit": j.res.Exit, "ops": len(j.res.Ops), "rerun": j.plan.Rerun})
 		}
 	}
+	// ---- pass C: damaged grammar files (truncated inside a token, a byte dropped or
+	// doubled): the run must still terminate within the tick budget, and exit 0
+	// must still mean the basic packages are there.  Damage is placed right after
+	// lexically interesting characters, not uniformly. ----
+	type mjob struct {
+		cs   *c09Case
+		what string
+		res  *engine.Result
+	}
+	var mjobs []*mjob
+	nMut := 10
+	if c.Tier == "thorough" {
+		nMut = 120
+	}
+	for ci, cs := range cfgs {
+		if len(cs.flags) != len(cs.gc.NeedFlags) || cs.env != (c09Env{}) && cs.env != envs[ci%len(envs)] {
+			continue
+		}
+		if c.Tier == "quick" && cs.gc.IR == nil && ci%3 != 0 {
+			continue
+		}
+		text := cs.spec.GrammarText
+		var spots []int
+		for i := 0; i < len(text); i++ {
+			if strings.IndexByte("`\"'<>/*\\|{[(:;-", text[i]) >= 0 {
+				spots = append(spots, i+1)
+			}
+		}
+		if len(spots) == 0 {
+			continue
+		}
+		rr := prng.Sub(c.Seed, "c09mut/"+cs.key(), ci)
+		for k := 0; k < nMut; k++ {
+			pos := spots[rr.Intn(len(spots))]
+			var mt, what string
+			switch rr.Intn(4) {
+			case 0, 1:
+				mt, what = text[:pos], fmt.Sprintf("truncated at byte %d", pos)
+			case 2:
+				mt, what = text[:pos-1]+text[pos:], fmt.Sprintf("byte %d deleted", pos-1)
+			default:
+				mt, what = text[:pos]+text[pos-1:], fmt.Sprintf("byte %d doubled", pos-1)
+			}
+			cs2 := *cs
+			cs2.spec.GrammarText = mt
+			mjobs = append(mjobs, &mjob{cs: &cs2, what: what})
+		}
+	}
+	err = c.ParallelDo(len(mjobs), func(w, i int) error {
+		res, err := st.exec(st.workers[w], mjobs[i].cs, nil, false)
+		if err != nil {
+			return err
+		}
+		mjobs[i].res = res
+		return nil
+	})
+	if err != nil {
+		return Harnessf("damaged-file runs: %v", err)
+	}
+	damagedExit0 := 0
+	for _, mj := range mjobs {
+		evals++
+		ticks += mj.res.Ticks
+		fired["damaged-grammar-file"]++
+		distinct[mj.cs.key()+"|"+mj.what] = true
+		key := map[string]string{"grammar": mj.cs.gc.ID}
+		plan := c09Plan{Spec: mj.cs.spec, Env: mj.cs.env, Class: "damaged-file"}
+		if mj.res.TimedOut || mj.res.Exit == simrt.ExitTickBudget {
+			c.Report(&Violation{Class: "non-termination", Key: key, Size: len(mj.cs.spec.GrammarText),
+				Detail: fmt.Sprintf("%s %v with the grammar file %s: gocc did not terminate within %d ticks (ticks so far %d)", mj.cs.gc.ID, mj.cs.flags, mj.what, int64(c09TickBudget), mj.res.Ticks), Plan: plan})
+			continue
+		}
+		if mj.res.Exit == 0 {
+			damagedExit0++
+			pk := []string{"token", "util"}
+			if !hasFlag(mj.cs.flags, "-no_lexer") {
+				pk = append(pk, "lexer")
+			}
+			if d := c09Complete(mj.res.Files, mj.cs.spec.OutDir(), pk); d != "" {
+				c.Report(&Violation{Class: "exit0-incomplete", Key: key, Detail: fmt.Sprintf("%s %v with the grammar file %s: exit status 0 but %s", mj.cs.gc.ID, mj.cs.flags, mj.what, d), Plan: plan})
+			}
+		}
+	}
+	c.Logf("%d damaged grammar files run (%d still exit 0)", len(mjobs), damagedExit0)
 	c.Logf("%d runs judged, %d distinct faulted, %d exited 0 under a fault, %d violations", evals, len(distinct), exit0UnderFault, c.NumViolations())
 	cov := map[string]interface{}{
 		"evaluations":                evals,
@@ -670,6 +754,28 @@ func c09Replay(c *Ctx, st *c09State) error {
 	}
 	cs := &c09Case{gc: gc, flags: v.Plan.Spec.Flags, env: v.Plan.Env, spec: v.Plan.Spec}
 	cs.spec.Plan = nil
+	if v.Plan.Class == "damaged-file" {
+		w := st.workers[0]
+		res, err := st.exec(w, cs, nil, false)
+		if err != nil {
+			return Harnessf("%v", err)
+		}
+		if res.TimedOut || res.Exit == simrt.ExitTickBudget {
+			c.Report(&Violation{Class: "non-termination", Key: map[string]string{"grammar": gc.ID}, Detail: fmt.Sprintf("did not terminate within the tick budget (ticks %d)", res.Ticks), Plan: v.Plan})
+		} else if res.Exit == 0 {
+			pk := []string{"token", "util"}
+			if !hasFlag(cs.flags, "-no_lexer") {
+				pk = append(pk, "lexer")
+			}
+			if d := c09Complete(res.Files, cs.spec.OutDir(), pk); d != "" {
+				c.Report(&Violation{Class: "exit0-incomplete", Key: map[string]string{"grammar": gc.ID}, Detail: d, Plan: v.Plan})
+			}
+		}
+		if c.NumViolations() == 0 {
+			c.Logf("replay did not reproduce a violation")
+		}
+		return nil
+	}
 	w := st.workers[0]
 	base := *cs
 	base.env.Pre = ""
